@@ -529,6 +529,62 @@ def c11(tier, seed):
     return r
 
 
+SEPARATORS = ["\u2028", "\u2029", "\u0085", "\x0b", "\x0c", "\x1c", "\x1d", "\x1e"]
+
+
+def oracle_c11_separators(case):
+    """keys and short string values containing characters that str.splitlines treats as line ends, in models that the nested layout
+    indents: the emitted module still compiles, the alias / metadata is the exact key, the Literal member the exact value"""
+    ch, fw, layout = case
+    key = f"a{ch}b"
+    val = f"v{ch}w"
+    sample = {"outer": {"inner": {key: 1, "z": val, "q": {"deep": {key: 2}}}}}
+    reg, gen, roots = infer({"Root": [sample]})
+    opts = {"meta": True} if fw in ("attrs", "dataclasses") else {}
+    code = render(reg, fw, layout, **opts)
+    try:
+        tree = ast.parse(code)
+    except SyntaxError as e:
+        return f"{fw}/{layout}: key with {ch!r}: emitted module does not compile: {e}"
+    hits = 0
+    for q, node in classes_of(tree):
+        for f, a, d in fields_of(node):
+            if d is not None and ("alias" in d or "metadata" in d) and f in ("ab", "a_b"):
+                hits += 1
+                if not _key_recoverable(d, key):
+                    return f"{fw}/{layout}: class {q}: key {key!r} is not recoverable exactly from {d!r}"
+            if f == "z" and "Literal[" in a:
+                got = ast.literal_eval(a[a.index("Literal[") + 8:a.rindex("]")])
+                if got != val:
+                    return f"{fw}/{layout}: class {q}: Literal member {got!r} differs from the observed value {val!r}"
+    if hits < 2 and fw != "base":
+        return f"{fw}/{layout}: expected two renamed fields for key {key!r}, found {hits}"
+    return None
+
+
+@bounded("C11", "line_separator_characters_in_nested_models")
+def c11_separators(tier, seed):
+    cases = [(ch, fw, layout) for ch in SEPARATORS for fw in ("pydantic", "attrs", "dataclasses") for layout in ("nested", "flat")]
+    r = run_cases(cases, oracle_c11_separators, "c11_separators")
+    r["bound"] = "8 characters that str.splitlines treats as line ends, in a key and a short string value of models at nesting depth 2-4 x 3 frameworks x 2 layouts"
+    r["function"] = "models/utils.indent, _generate_code, json.dumps(ensure_ascii=False) in alias / Literal emission"
+    return r
+
+
+@bounded("C03", "line_separator_characters_in_nested_models")
+def c03_separators(tier, seed):
+    r = c11_separators(tier, seed)
+    r["function"] = "models/utils.indent, _generate_code (module must compile and keep its string constants)"
+    return r
+
+
+@bounded("C12", "line_separator_characters_in_nested_models")
+def c12_separators(tier, seed):
+    r = c11_separators(tier, seed)
+    r["function"] = "models/utils.indent (nested layout must carry the same constants as the flat one)"
+    return r
+
+
 C11_EDGES = [("folded-equal-keys:Field/field", ["Field", "field"]), ("empty-label:!!", ["!!", "ok"]), ("leading-underscore:_x", ["_x", "ok"])]
 
 
@@ -706,7 +762,7 @@ def c18(tier, seed):
     return r
 
 
-ORACLES = {"c11_classes": lambda c: oracle_c11_classes(tuple(c)), "c03": oracle_c03, "c04": oracle_c04, "c10": oracle_c10, "c11": oracle_c11, "c12": oracle_c12, "c18": oracle_c18}
+ORACLES = {"c11_separators": lambda c: oracle_c11_separators(tuple(c)), "c11_classes": lambda c: oracle_c11_classes(tuple(c)), "c03": oracle_c03, "c04": oracle_c04, "c10": oracle_c10, "c11": oracle_c11, "c12": oracle_c12, "c18": oracle_c18}
 
 
 def replay(w):
